@@ -34,6 +34,8 @@ def main():
             for p in props:
                 rc, out = sh("./check %s --tier quick" % p, cwd="/verif")
                 lines = [l for l in out.splitlines() if l.startswith(("VIOLATION", "OK ", "KNOWN-FINDING"))]
+                # keep the verdict lines first (input replays before the others), then known findings
+                lines.sort(key=lambda l: (0 if l.startswith("VIOLATION") and "no-failing-input-found" not in l else 1 if l.startswith(("VIOLATION", "OK ")) else 2))
                 results[p] = {"exit": rc, "lines": lines[:6]}
                 if rc != 0:
                     cdir = os.path.join("/verif/corpus", p); os.makedirs(cdir, exist_ok=True)
